@@ -12,7 +12,9 @@ function `Book.update`); each monitor is the bookkeeping plus one check (`ofChec
                  await completing by result returns that call's value and error;
 * `monC11why`  — an await that returns without a result has a reason: its context was cancelled or
                  its own channel fired (and it returns what that channel dictates);
-* `monC11cur`  — a container awaiter returns the result of a promise that was current during the call
+* `monC11cur`  — a container awaiter returns the result of a promise that was current during the call,
+                 after the last quiescence point at which it was still pending (there it had observed every
+                 earlier replacement: the result of a promise removed before that point is not accepted)
                  (and returns through its own channel only if the container was empty during the call);
 * `monC11live` — at a quiescence point no awaiter is pending although a result is available, its
                  context is cancelled or (plain promise / empty container) its channel fired; and the
@@ -88,6 +90,15 @@ def Book.addWriter (b : Book) (c : Call) (tgt : Option PRef) : Book :=
 def Book.markDead (b : Book) (ds : List Nat) : Book :=
   { b with calls := b.calls.mapIdx fun u c => if ds.contains u then { c with dead := true } else c }
 
+/-- at a quiescence point a pending container awaiter is parked on the content the container has
+right now: it has observed every earlier replacement, so what it may still return is a result of
+one of the present candidates (or of a writer invoked later) -/
+def Book.resetSeen (b : Book) (B : List Nat) : Book :=
+  { b with calls := b.calls.mapIdx fun u c =>
+      match c.kind with
+      | .cawait _ => if B.contains u then { c with seen := b.candidates } else c
+      | _ => c }
+
 def Book.update (b : Book) : Obs → Book
   | .newp _ => { b with nproms := b.nproms + 1 }
   | .invSet _ p _ e => { b with calls := b.calls ++ [{ kind := .set p e }] }
@@ -118,7 +129,7 @@ def Book.update (b : Book) : Obs → Book
   | .envCancel t => b.modify t fun c => { c with cx := true }
   | .envFire t f => b.modify t fun c => { c with ch := some f }
   | .retPanic _ => b
-  | .quiesce _ _ => b
+  | .quiesce _ B => b.resetSeen B
 
 /-- a monitor made of the bookkeeping and one check on (state before, observable) -/
 def ofCheck (chk : Book → Obs → Bool) : ObsMonitor Obs Book where
